@@ -1,2 +1,12 @@
 import Tibc.Props.C18
-#print axioms Tibc.C18.placeholder
+#print axioms Tibc.C18.eth_accepts_iff
+#print axioms Tibc.C18.eth_known_header_refused
+#print axioms Tibc.C18.eth_unknown_parent_refused
+#print axioms Tibc.C18.eth_accepted_valid
+#print axioms Tibc.C18.rewrite_latest
+#print axioms Tibc.C18.eth_accept_effect
+#print axioms Tibc.C18.baseFee_at_target
+#print axioms Tibc.C18.baseFee_above_target
+#print axioms Tibc.C18.baseFee_below_target
+#print axioms Tibc.C18.difficulty_at_least_minimum
+#print axioms Tibc.C18.same_root_breaks_one_chain
